@@ -29,6 +29,12 @@ ASSUMPTIONS = ["header['NAXIS2'] and the band tuple are Python ints",
 
 
 MUTANTS = [
+    ("band edges from a float rows-per-band", "AegeanTools/fits_tools.py",
+     "    row_min = header['NAXIS2'] * band[0] // band[1]\n"
+     "    row_max = header['NAXIS2'] * (band[0]+1) // band[1]\n",
+     "    rows_per_band = header['NAXIS2'] / band[1]\n"
+     "    row_min = int(rows_per_band * band[0])\n"
+     "    row_max = int(rows_per_band * (band[0]+1))\n", "C20-R1"),
     ("BSCALE applied to the global row range of a local block",
      "AegeanTools/fits_tools.py",
      "        data *= header['BSCALE']",
@@ -134,6 +140,8 @@ def run(ctx):
         d = defs[b][0]
         v = d.value
         inexact = None
+        from ..core import expand_locals
+        v = expand_locals(fi.node, v)
         for c in ast.walk(v):
             if isinstance(c, ast.Call) and norm(c.func) == "int" and c.args \
                     and any(isinstance(x, ast.BinOp) and
